@@ -334,3 +334,34 @@ package bbolt
 //@   ensures [snapshot] err == nil ==> t != nil && fresh(t) && !t.writable && t.db == db && t.meta != nil && t.meta.txid == old(dbmeta(db).txid)
 //@   ensures [registered] err == nil && db.freelist != nil ==> lastreg == t.meta.txid && calls("freelist.Interface.AddReadonlyTXID", db.freelist) == old(calls("freelist.Interface.AddReadonlyTXID", db.freelist)) + 1
 //@   ensures [underlock] err == nil && db.freelist != nil ==> calls("sync.(*Mutex).Unlock", db.metalock) == old(calls("sync.(*Mutex).Unlock", db.metalock)) + 1
+
+// begin preconditions shared by Begin / Update / View (the database is open and mapped, no lock is held by the caller)
+//@ pure func canbegin(db *DB) bool = !db.metalock.held && db.mmaplock.rcount >= 0 && (db.readOnly || !db.rwlock.held) && (db.opened && db.data != nil ==> db.meta0 != nil && db.meta1 != nil && (metavalid(db.meta0) || metavalid(db.meta1)) && dbmeta(db).txid < 18446744073709551615 && db.freelist != nil)
+
+//@ func (*DB).Begin
+//@   returns (t, err)
+//@   props C03 C02 C17
+//@   requires canbegin(db)
+//@   ensures [rw] writable && err == nil ==> db.rwlock.held && db.rwtx == t && t != nil && t.writable && t.db == db && t.meta != nil && t.meta.txid == old(dbmeta(db).txid) + 1 && fresh(t)
+//@   ensures [rwfail] writable && err != nil ==> t == nil && (!db.rwlock.held || db.readOnly) && db.rwtx == old(db.rwtx)
+//@   ensures [readonlydb] writable && db.readOnly ==> err == berrors.ErrDatabaseReadOnly
+//@   ensures [ro] !writable && err == nil ==> t != nil && !t.writable && t.db == db && t.meta != nil && t.meta.txid == old(dbmeta(db).txid) && db.mmaplock.rcount == old(db.mmaplock.rcount) + 1 && fresh(t)
+//@   ensures [rofail] !writable && err != nil ==> t == nil && db.mmaplock.rcount == old(db.mmaplock.rcount)
+//@   ensures [metalock] !db.metalock.held
+
+//@ func (*DB).Update$1
+//@   props C03 C08
+//@   requires t != nil
+//@   requires t.db != nil && t.writable ==> t.db.rwlock.held && t.meta != nil && t.db.freelist != nil && mapok(t)
+//@   requires t.db != nil && !t.writable ==> t.db.mmaplock.rcount >= 1 && t.meta != nil && !t.db.metalock.held
+//@   ensures [rollback] old(t.db) != nil ==> calls("(*Tx).rollback", t) == old(calls("(*Tx).rollback", t)) + 1 && t.db == nil
+//@   ensures [unlocked] old(t.db) != nil && old(t.writable) ==> !old(t.db).rwlock.held
+//@   ensures [noop] old(t.db) == nil ==> calls("(*Tx).rollback", t) == old(calls("(*Tx).rollback", t))
+
+//@ func (*DB).View$1
+//@   props C03 C02
+//@   requires t != nil
+//@   requires t.db != nil && t.writable ==> t.db.rwlock.held && t.meta != nil && t.db.freelist != nil && mapok(t)
+//@   requires t.db != nil && !t.writable ==> t.db.mmaplock.rcount >= 1 && t.meta != nil && !t.db.metalock.held
+//@   ensures [rollback] old(t.db) != nil ==> calls("(*Tx).rollback", t) == old(calls("(*Tx).rollback", t)) + 1 && t.db == nil
+//@   ensures [noop] old(t.db) == nil ==> calls("(*Tx).rollback", t) == old(calls("(*Tx).rollback", t))
